@@ -8,7 +8,9 @@ CONSTANTS Mode,     \* which universe
           Alpha,    \* "bytes": the alphabet
           MaxLen,   \* "bytes": all strings of length <= MaxLen; other modes: size knob
           First     \* "bytes": strings of length MaxLen start with one of these
-VARIABLES b, its    \* the input bytes; the item sequence it was printed from (or << >>)
+VARIABLES b,      \* the input bytes
+          its,    \* the item sequence it was printed from (or mode-specific seed data)
+          ph      \* "seed" (not a case) or "case"
 
 Idents == { <<97>>,
       <<95>>,
@@ -356,41 +358,57 @@ Utf8Law(c, body) ==
 
 ------------------------------------------------------------------------------
 ItemModes == {"items1", "items2", "items3"}
-StrideCps(z) == { k * MaxLen : k \in 0..(1114111 \div MaxLen) }
-             \cup {127, 128, 2047, 2048, 55295, 57344, 65533, 65535, 65536, 1114111}
+K == 8                                  \* seeds per part (work split for TLC's workers)
+Hash(sp) == IF sp = <<>> THEN 0 ELSE (Len(sp) + sp[1] + sp[Len(sp)]) % K
+Chunk == 17408                          \* 64 * Chunk = 1114112
+Boundary == {127, 128, 2047, 2048, 55295, 57344, 65533, 65535, 65536, 1114111}
 
+\* Two levels so that TLC's workers share the work: a few hundred "seed" states
+\* (ph = "seed", not cases) and, as their successors, the cases (ph = "case").
+\* In "bytes" mode every string is a case and its successors append one byte.
 Init ==
+  CASE Mode = "bytes"  -> b = <<>> /\ its = <<>> /\ ph = "case"
+    [] Mode = "items1" -> \E p \in 1..NParts, j \in 0..(K - 1) : its = <<p, j>> /\ b = <<>> /\ ph = "seed"
+    [] Mode = "items2" -> \E x \in Medium(0) : its = <<x>> /\ b = <<>> /\ ph = "seed"
+    [] Mode = "items3" -> \E x \in Small(0) : its = <<x>> /\ b = <<>> /\ ph = "seed"
+    [] Mode = "frag"   -> \E f \in FragsQ \cup {<<>>} : its = <<>> /\ b = f /\ ph = "seed"
+    [] Mode = "tbfrag" -> \E h \in TbHeads, f \in TbLines : its = <<>> /\ b = h \o f /\ ph = "seed"
+    [] Mode = "utf8"   -> \E c \in 1..NContainers, p \in Pats : its = <<c>> /\ b = p /\ ph = "seed"
+    [] Mode = "scalar" -> \E j \in 0..63 : its = <<j>> /\ b = <<>> /\ ph = "seed"
+
+Next ==
   CASE Mode = "bytes" ->
-         /\ its = <<>>
-         /\ \E n \in 0..MaxLen : /\ b \in [1..n -> Alpha]
-                                 /\ (n = MaxLen /\ n > 0 => b[1] \in First)
+         /\ Len(b) < MaxLen /\ ph' = ph /\ its' = its
+         /\ \E x \in Alpha : /\ (Len(b) + 1 = MaxLen => (IF b = <<>> THEN x ELSE b[1]) \in First)
+                             /\ b' = Append(b, x)
     [] Mode = "items1" ->
-         /\ \E p \in 1..NParts : \E x \in Part(p) : its = <<x>>
-         /\ b = PrintItems(its)
+         /\ ph = "seed" /\ ph' = "case"
+         /\ \E x \in Part(its[1]) : Hash(x.sp) = its[2] /\ its' = <<x>> /\ b' = x.sp
     [] Mode = "items2" ->
-         /\ \/ \E x \in Medium(0), y \in Medium(0) : its = <<x, y>>
-            \/ \E x \in Medium(0), y \in Medium(0), s \in Seps(0) : its = <<x, s, y>>
-         /\ SeqOk(its)
-         /\ b = PrintItems(its)
+         /\ ph = "seed" /\ ph' = "case"
+         /\ \/ \E y \in Medium(0) : its' = <<its[1], y>>
+            \/ \E y \in Medium(0), s \in Seps(0) : its' = <<its[1], s, y>>
+         /\ SeqOk(its') /\ b' = PrintItems(its')
     [] Mode = "items3" ->
-         /\ \E x \in Small(0), y \in Small(0), z \in Small(0) : its = <<x, y, z>>
-         /\ SeqOk(its)
-         /\ b = PrintItems(its)
+         /\ ph = "seed" /\ ph' = "case"
+         /\ \E y \in Small(0), z \in Small(0) : its' = <<its[1], y, z>>
+         /\ SeqOk(its') /\ b' = PrintItems(its')
     [] Mode = "frag" ->
-         /\ its = <<>>
-         /\ \E d \in {<<34>>, <<39>>, <<64, 34>>, <<64, 39>>}, n \in 0..MaxLen, cl \in {<<>>, <<34>>, <<39>>} :
-              \E f \in [1..n -> FragsQ] : b = d \o Flatten(f) \o cl
+         /\ ph = "seed" /\ ph' = "case" /\ its' = its
+         /\ \E d \in {<<34>>, <<39>>, <<64, 34>>, <<64, 39>>}, n \in 0..(MaxLen - 1), cl \in {<<>>, <<34>>, <<39>>} :
+              \E f \in [1..n -> FragsQ] : b' = d \o b \o Flatten(f) \o cl
     [] Mode = "tbfrag" ->
-         /\ its = <<>>
-         /\ \E h \in TbHeads, n \in 0..MaxLen : \E f \in [1..n -> TbLines] :
-              b = <<124, 124, 124>> \o h \o Flatten(f)
+         /\ ph = "seed" /\ ph' = "case" /\ its' = its
+         /\ \E n \in 0..(MaxLen - 1) : \E f \in [1..n -> TbLines] : b' = <<124, 124, 124>> \o b \o Flatten(f)
     [] Mode = "utf8" ->
-         /\ \E c \in 1..NContainers, p1 \in Pats, p2 \in Pats :
-              /\ its = <<c, Len(p1 \o p2)>>
-              /\ b = Wrap(c, p1 \o p2)
+         /\ ph = "seed" /\ ph' = "case"
+         /\ \E p2 \in Pats : its' = <<its[1], Len(b \o p2)>> /\ b' = Wrap(its[1], b \o p2)
     [] Mode = "scalar" ->
-         /\ \E cp \in StrideCps(0) : IsScalar(cp) /\ its = <<cp>> /\ b = <<34>> \o Utf8Enc(cp) \o <<34>>
-Next == UNCHANGED <<b, its>>
+         /\ ph = "seed" /\ ph' = "case"
+         /\ \E k \in 0..(Chunk - 1) :
+              LET cp == its[1] * Chunk + k IN
+              /\ (k % MaxLen = 0 \/ cp \in Boundary) /\ IsScalar(cp)
+              /\ its' = <<cp>> /\ b' = <<34>> \o Utf8Enc(cp) \o <<34>>
 
 \* the body of a utf8-mode input, recovered from the container number and body length
 Utf8Body == LET c == its[1] n == its[2]
@@ -398,14 +416,14 @@ Utf8Body == LET c == its[1] n == its[2]
                          [] c = 10 -> 0 [] c = 11 -> 2
             IN  SubSeq(b, off + 1, off + n)
 
-Laws ==
+Laws == ph = "case" =>
   CASE Mode \in ItemModes -> LawSeq(its) /\ LawBytes(b)
     [] Mode = "utf8"   -> Utf8Law(its[1], Utf8Body) /\ LawLossy(Utf8Body) /\ LawBytes(b)
     [] Mode = "scalar" -> LawScalar(its[1]) /\ Lex(b).st = "ok" /\ Lex(b).toks[1].val = <<its[1]>>
     [] OTHER -> LawBytes(b)
 
 CT(t) == <<t.kind, t.s, t.e, t.val, t.exp>>
-Emit == Mode # "scalar" =>
+Emit == (Mode # "scalar" /\ ph = "case") =>
   LET r == Lex(b)
   IN  PrintT(<<"CASE", ToJson([b |-> b, st |-> r.st, cls |-> r.cls, at |-> r.at,
                                t |-> [k \in 1..Len(r.toks) |-> CT(r.toks[k])]])>>)
